@@ -26,7 +26,11 @@ def assist(project, source, position, filename=None, debug=False):
     ln, col = position
     line = source.lines[ln - 1][:col]
     # what the editor replaces: the identifier characters left of the cursor
-    prefix = re.search(r'\w*$', line).group()
+    # (combining marks continue an identifier although \w does not match them)
+    start = len(line)
+    while start and ('a' + line[start - 1]).isidentifier():
+        start -= 1
+    prefix = line[start:]
     if line.lstrip().startswith('from ') and ' import ' not in line:
         iname = line.rpartition(' ')[2]
         package, sep, _ = iname.rpartition('.')
